@@ -354,13 +354,33 @@ class ImplRun:
     pass
 
 
-def run_impl(case, m, time_limit=20):
+class Shared:
+    """what several consecutive load_files calls of one *history* share: ONE `additional_protocol_loaders` dict
+    object holding one `mem:` registry loader whose store is re-filled before every call"""
+
+    def __init__(self):
+        self.store, self.events = {}, []
+        self.mem_loader, self.MemLocationFile = make_mem(self.store, self.events)
+        self.protocols = {"mem": self.mem_loader}
+
+    def intact(self):
+        return list(self.protocols.keys()) == ["mem"] and self.protocols["mem"] is self.mem_loader
+
+
+def run_impl(case, m, time_limit=20, shared=None, audit_prefix=None):
     from pdtable.io.load import load_files
     from pdtable import BlockType
     install_hook()
     r = ImplRun()
-    events = []
-    mem_loader, MemLocationFile = make_mem(m.mem_store, events)
+    if shared is None:
+        events = []
+        mem_loader, MemLocationFile = make_mem(m.mem_store, events)
+        protocols = {"mem": mem_loader}
+    else:
+        events, MemLocationFile, protocols = shared.events, shared.MemLocationFile, shared.protocols
+        del events[:]
+        shared.store.clear()
+        shared.store.update(m.mem_store)
     r.MemLocationFile = MemLocationFile
     tracker = make_collector() if case["tracker"] == "collecting" else None
     kwargs = dict(issue_tracker=tracker, allow_include=case["allow_include"])
@@ -371,14 +391,14 @@ def run_impl(case, m, time_limit=20):
     if case.get("sheet_pattern"):
         kwargs["sheet_name_pattern"] = re.compile(case["sheet_pattern"])
     if case["mem"]:
-        kwargs["additional_protocol_loaders"] = {"mem": mem_loader}
+        kwargs["additional_protocol_loaders"] = protocols
     if case.get("csv_sep"):
         kwargs["csv_sep"] = SEP
     roots = None if case["roots"] is None else [subst(s, m) for s in case["roots"]]
     r.blocks, r.exc, r.runaway = [], None, False
     total_rows = sum(len(s["rows"]) for f in case["files"] for s in f["sheets"])
     limit = 50 * (total_rows + 10)
-    _AUDIT["prefix"], _AUDIT["events"] = str(m.root), events
+    _AUDIT["prefix"], _AUDIT["events"] = (audit_prefix or str(m.root)), events
     # a load that reads every location at most once cannot need more reads than there are locations
     _AUDIT["limit"] = 4 * (len(case["files"]) + len(case["folders"])) + 12
     old = signal.signal(signal.SIGALRM, _alarm)
@@ -400,6 +420,7 @@ def run_impl(case, m, time_limit=20):
         signal.alarm(0)
         signal.signal(signal.SIGALRM, old)
         _AUDIT["events"] = None
+    events = list(events)
     r.events = events
     r.tracker = tracker
     # ---- canonical form
@@ -418,8 +439,11 @@ def run_impl(case, m, time_limit=20):
         else:
             tok = token_of(b)
             if tok is not None:
-                o["loc"] = m.file_id[tok[0]]
-                o["sheet"] = case["files"][tok[0]]["sheets"][tok[1]]["name"]
+                if tok[0] < len(case["files"]) and tok[1] < len(case["files"][tok[0]]["sheets"]):
+                    o["loc"] = m.file_id[tok[0]]
+                    o["sheet"] = case["files"][tok[0]]["sheets"][tok[1]]["name"]
+                else:
+                    o["loc"] = -1          # a block of a file this input set does not contain
         if il is not None:
             o["loc"] = canon_location(m, il.file)[0]
             o["sheet"], o["row"] = il.sheet_name, il.row
@@ -984,9 +1008,9 @@ def gen_cases(tier, seed, search=False):
         idx += 1
 
 
-def random_case(crng, xlsx_share=0.2):
+def random_case(crng, xlsx_share=0.2, force_mem=False):
     n = crng.choice([1, 2, 3, 3, 4, 4, 5, 6])
-    mem = crng.random() < 0.35
+    mem = (crng.random() < 0.35) or force_mem
     kinds = []
     for i in range(n):
         r = crng.random()
@@ -1065,13 +1089,56 @@ def classify(case, impl, out):
         out.count("filekind:" + f["kind"])
 
 
+def gen_histories(tier, seed, search=False):
+    """two or three consecutive load_files calls in one process that are handed the SAME
+    additional_protocol_loaders dict object, over different scratch trees / roots / root_folder settings /
+    file-name patterns"""
+    n = 500 if (tier == "thorough" or search) else 60
+    for k in range(n):
+        crng = make_rng(seed, f"C16:h:{k}")
+        calls = []
+        for j in range(crng.choice([2, 2, 3])):
+            c = random_case(crng, xlsx_share=0.1, force_mem=True)
+            c["gen"] = {"history": k, "call": j}
+            calls.append(c)
+        yield calls
+
+
+def run_history(calls, base: Path, out, hist_input, order=None, ops=None, pend=None):
+    """runs the calls of one history in order; oracle per call (this call's ground truth: every block comes from a
+    location reachable from this call's roots under this call's root_folder and pattern) + the caller's dict is
+    left as it was"""
+    shared = Shared()
+    for j, case in enumerate(calls):
+        m = materialise(case, base / f"call{j}")
+        nodes = observe_world(case, m)
+        r = run_impl(case, m, shared=shared, audit_prefix=str(base))
+        o = Outcome()
+        oracle(case, m, r.canon, o)
+        if not shared.intact():
+            o.fail("load_files changed the caller's additional_protocol_loaders dict", case,
+                   sorted(map(str, shared.protocols.keys())), ["mem"], key="caller_dict_modified")
+        for f in o.failures:
+            out.fail(f"call {j + 1} of {len(calls)} sharing one protocol dict: " + f["what"],
+                     dict(hist_input, failing_call=j), f["observed"], f["expected"], key="history:" + f["key"])
+        if any(f["key"] != "caller_dict_modified" for f in o.failures):
+            return False
+        if ops is not None:
+            table = resolve_table(case, m, r.MemLocationFile)
+            ops.append(model_op(case, m, nodes, table, order))
+            pend.append((dict(hist_input, failing_call=j), m, r.canon, case))
+    return True
+
+
 def run(tier, seed, model_ok, translator, search=False):
     out = Outcome()
     out.rule = ("(a) every digraph on 1..3 files (thorough: plus every 4-node digraph reachable from the root, up to "
                 "renaming) as an include graph, each under both trackers, files spread over folder layouts, include "
                 "spellings (relative, ./, root-anchored /, backslash, absolute, file:/FILE: prefixes, mem:) drawn per "
                 "edge; (b) random input sets of 1-6 files (csv, multi-sheet xlsx, mem:, unsupported .txt) in up to 3 "
-                "folders with folder includes, unloadable targets, name patterns, sheet patterns, several roots. "
+                "folders with folder includes, unloadable targets, name patterns, sheet patterns, several roots; "
+                "(c) histories of 2-3 consecutive load_files calls over different trees that are handed the same "
+                "additional_protocol_loaders dict object. "
                 "Non-trivial: at least one include edge or folder root; distinct by full case content.")
     scratch = Path(tempfile.mkdtemp(prefix="c16-")).resolve()
     ops, pend = [], []
@@ -1103,11 +1170,30 @@ def run(tier, seed, model_ok, translator, search=False):
             if model_ok and not search:
                 table = resolve_table(case, m, r.MemLocationFile)
                 ops.append(model_op(case, m, nodes, table, order))
-                pend.append((case, m, impl))
+                pend.append((case, m, impl, case))
             shutil.rmtree(m.root, ignore_errors=True)
+        # (c) histories: consecutive calls sharing one protocol dict
+        for k, calls in enumerate(gen_histories(tier, seed, search)):
+            if len(out.failures) >= 25:
+                break
+            hist_input = {"history": calls, "seed": seed, "index": f"h{k}"}
+            base = scratch / f"h{k}"
+            use_model = model_ok and not search
+            run_history(calls, base, out, hist_input, order, ops if use_model else None, pend if use_model else None)
+            out.evaluations += len(calls)
+            out.nontrivial.add(hash(repr([c["files"] for c in calls])))
+            out.count("history_calls", len(calls))
+            out.count("histories:" + "/".join("rooted" if c["root_folder"] else "unrooted" for c in calls))
+            if len({c["start_pattern"] for c in calls}) > 1:
+                out.count("histories_with_differing_name_pattern")
+            shutil.rmtree(base, ignore_errors=True)
         if model_ok and ops:
-            for (case, m, impl), ans in zip(pend, common.run_model(ops)):
+            for (inp, m, impl, case), ans in zip(pend, common.run_model(ops)):
+                n_before = len(out.mismatches)
                 compare(case, m, impl, ans, out)
+                if inp is not case:
+                    for mm in out.mismatches[n_before:]:
+                        mm["input"] = inp
                 if isinstance(ans, dict) and "status" in ans:
                     out.count("model_status:" + (ans["status"] if isinstance(ans["status"], str)
                                                  else ans["status"]["exc"]))
@@ -1118,6 +1204,16 @@ def run(tier, seed, model_ok, translator, search=False):
 
 def replay(rep):
     case = rep.get("input") or {}
+    if "history" in case:
+        scratch = Path(tempfile.mkdtemp(prefix="c16r-")).resolve()
+        try:
+            o = Outcome()
+            run_history(case["history"], scratch / "h", o, {"history": case["history"]})
+            if o.failures:
+                return False, o.failures[0]["what"]
+            return True, "property holds on this history"
+        finally:
+            shutil.rmtree(scratch, ignore_errors=True)
     if "files" not in case:
         return False, "replay file has no input (no-failing-input-found): " + str(rep.get("broken"))[:300]
     scratch = Path(tempfile.mkdtemp(prefix="c16r-")).resolve()
